@@ -568,7 +568,7 @@ func EnumPathsSeed(start *ssa.BasicBlock, idx int, limit int, maxVisits int, see
 						rec = true
 					}
 				}
-				if rec || callee == start.Parent() || p.inl[callee] {
+				if rec || callee == start.Parent() || (p.inl[callee] && !isSelector(callee)) {
 					// a callee is stepped into at most once per path: its parameters then have one
 					// binding on the path, so facts about them stay unambiguous
 					continue
@@ -649,7 +649,34 @@ func EnumPathsSeed(start *ssa.BasicBlock, idx int, limit int, maxVisits int, see
 						continue
 					}
 					q := p.clone()
-					q.Conds = append(q.Conds, Fact{Cond: t.Cond, Val: branch, If: t})
+					// `if !x` taken is `x` being false: facts are recorded about x
+					fc, fv := t.Cond, branch
+					for {
+						u, isNot := fc.(*ssa.UnOp)
+						if !isNot || u.Op != token.NOT {
+							break
+						}
+						fc, fv = u.X, !fv
+					}
+					fr, rv := p.Resolve(fc), fv
+					for {
+						u, isNot := fr.(*ssa.UnOp)
+						if !isNot || u.Op != token.NOT {
+							break
+						}
+						fr, rv = p.Resolve(u.X), !rv
+					}
+					if rv != fv {
+						fr = nil // cannot be expressed with the same outcome: leave unresolved
+					}
+					nf := Fact{Cond: fc, Val: fv, If: t, Res: fr}
+					if cmp, isCmp := fr.(*ssa.BinOp); isCmp {
+						switch cmp.Op {
+						case token.EQL, token.NEQ, token.LSS, token.LEQ, token.GTR, token.GEQ:
+							nf.X, nf.Y = p.Resolve(cmp.X), p.Resolve(cmp.Y)
+						}
+					}
+					q.Conds = append(q.Conds, nf)
 					if !ok {
 						q.assume(t.Cond, branch)
 					}
@@ -877,4 +904,54 @@ func nonNilByConstruction(v ssa.Value) bool {
 		return false
 	}
 	return false
+}
+
+
+// isSelector: a small function that only chooses among its parameters and
+// constants (min, max, clamp, "default if zero"): no calls, no stores, and every
+// result is a parameter, a constant, or a choice of those. Such a function may
+// be stepped into more than once on a path: what it returns resolves to the
+// caller's values at the time of the return, and the facts it contributes keep
+// the operands as they resolved at the time of the branch.
+var selectorCache = map[*ssa.Function]bool{}
+
+func isSelector(f *ssa.Function) bool {
+	if v, ok := selectorCache[f]; ok {
+		return v
+	}
+	ok := len(f.Blocks) > 0 && len(f.Blocks) <= 12 && len(f.FreeVars) == 0
+	var choice func(v ssa.Value, depth int) bool
+	choice = func(v ssa.Value, depth int) bool {
+		switch x := v.(type) {
+		case *ssa.Parameter, *ssa.Const:
+			return true
+		case *ssa.Phi:
+			if depth > 4 {
+				return false
+			}
+			for _, e := range x.Edges {
+				if !choice(e, depth+1) {
+					return false
+				}
+			}
+			return true
+		}
+		return false
+	}
+	for _, b := range f.Blocks {
+		for _, in := range b.Instrs {
+			switch x := in.(type) {
+			case *ssa.Call, *ssa.Go, *ssa.Defer, *ssa.Store, *ssa.Send, *ssa.MapUpdate, *ssa.Panic, *ssa.Alloc, *ssa.MakeClosure:
+				ok = false
+			case *ssa.Return:
+				for _, rv := range x.Results {
+					if !choice(rv, 0) {
+						ok = false
+					}
+				}
+			}
+		}
+	}
+	selectorCache[f] = ok
+	return ok
 }
